@@ -440,9 +440,11 @@ impl<'a> Selector<'a> {
 
     // check and convert index to Array index.
     fn convert_index(index: &Index, length: i32) -> Option<usize> {
+        // use i64 to avoid overflow, as the index can be any i32 value.
+        let length = length as i64;
         let idx = match index {
-            Index::Index(idx) => *idx,
-            Index::LastIndex(idx) => length + *idx - 1,
+            Index::Index(idx) => *idx as i64,
+            Index::LastIndex(idx) => length + *idx as i64 - 1,
         };
         if idx >= 0 && idx < length {
             Some(idx as usize)
@@ -453,13 +455,15 @@ impl<'a> Selector<'a> {
 
     // check and convert slice to Array indices.
     fn convert_slice(start: &Index, end: &Index, length: i32) -> Option<Vec<usize>> {
+        // use i64 to avoid overflow, as the index can be any i32 value.
+        let length = length as i64;
         let start = match start {
-            Index::Index(idx) => *idx,
-            Index::LastIndex(idx) => length + *idx - 1,
+            Index::Index(idx) => *idx as i64,
+            Index::LastIndex(idx) => length + *idx as i64 - 1,
         };
         let end = match end {
-            Index::Index(idx) => *idx,
-            Index::LastIndex(idx) => length + *idx - 1,
+            Index::Index(idx) => *idx as i64,
+            Index::LastIndex(idx) => length + *idx as i64 - 1,
         };
         if start > end || start >= length || end < 0 {
             None
